@@ -468,6 +468,11 @@ def compare(it, op, a, b, node):
             return VConst(op != "Eq")  # a floating-point dtype is not bool / an integer dtype
     if isinstance(a, VUnknown) and a.kind == "shape" or isinstance(b, VUnknown) and b.kind == "shape":
         return VUnknown("shape-eq", "bool")
+    if op in ("Eq", "NotEq"):
+        # None never equals a tuple / list / dictionary (the "nothing kept yet" test of a cache key)
+        for x, y in ((a, b), (b, a)):
+            if isinstance(x, VConst) and x.value is None and isinstance(y, (VTuple, VList, VDict)):
+                return VConst(op == "NotEq")
     u = VUnknown("cmp", "bool")
     if op in ("Eq", "NotEq"):
         u.operands, u.negated = (a, b), op == "NotEq"
